@@ -155,6 +155,9 @@ func TestC10(t *testing.T) {
 			}
 		}
 		opensslSweep(r, ParrotTargets(true), 0, "C10")
+		if len(rest) > 600 { // one s_server process per case: keep the pass within minutes
+			rest = pickSubset(Sub("C10openssl-rest", 0), rest, 600, 600)
+		}
 		opensslSweep(r, rest, 3, "C10rest")
 	} else {
 		opensslSweep(r, ParrotTargets(true), 2, "C10")
